@@ -9,7 +9,7 @@
      point 63  p_peek : thread_pool::current's await_ready reads _current->_exit (without the lock)
      point  9  xwait  : client 0 waits until every other client thread has returned, then runs ~thread_pool
    The condition variable: notify_all flags every thread that is sleeping at that moment (`woken`); notify_one
-   adds an anonymous token while fewer tokens than unflagged sleepers exist.  A sleeper wakes by clearing its flag
+   adds an anonymous token while fewer tokens than unflagged sleepers exist (a notify_all subsumes pending tokens).  A sleeper wakes by clearing its flag
    or else by taking a token, re-tests its wait predicate and goes back to sleep when it is false.  Which sleeper
    takes a token is left to the schedule, so every choice the OS could make for notify_one (and spurious wake-ups
    that find the predicate false) is covered; a thread that starts to sleep after a notify_all is not woken by it.
@@ -103,10 +103,10 @@ Definition with_ext (s : st) (i : nat) (r : list cop) : st :=
        (set_nth (cont s) i r) (i :: extw s) (uad s).
 (* stop(): the first critical section *)
 Definition marked (s : st) (wk : list nat) : st :=
-  mkSt [] true (stopped s) [] (tokens s) wk (destroyed s) (nclients s) (clos s) (thrs s) (cont s) (extw s) (uad s).
+  mkSt [] true (stopped s) [] 0 wk (destroyed s) (nclients s) (clos s) (thrs s) (cont s) (extw s) (uad s).
 (* stop(): the last critical section of the first stop *)
 Definition finished (s : st) (wk : list nat) : st :=
-  mkSt (queue s) (exit_ s) true (threads s) (tokens s) wk (destroyed s) (nclients s) (clos s) (thrs s) (cont s) (extw s) (uad s).
+  mkSt (queue s) (exit_ s) true (threads s) 0 wk (destroyed s) (nclients s) (clos s) (thrs s) (cont s) (extw s) (uad s).
 Definition dead (s : st) : st :=
   mkSt [] (exit_ s) (stopped s) (threads s) (tokens s) (woken s) true (nclients s) (clos s) (thrs s) (cont s) (extw s) (uad s).
 
@@ -178,8 +178,10 @@ Definition stop_end (s : st) (t : nat) (q : list nat) (first : bool) (a : after)
   if first then (with_thr s1 t (SFin a), e)
   else let '(s2, e2) := returned s1 t a in (s2, e ++ e2).
 
-(* is the calling thread one of the pool's threads (thread_local _current == this)? *)
-Definition is_cur (s : st) (t : nat) : bool := Nat.leb (nclients s) t || existsb (Nat.eqb t) (extw s).
+(* is the calling thread one of the pool's threads (thread_local _current == this)?  Exactly the threads that are
+   inside worker(): _current is set on entry and reset on exit (and by a self-detaching stop), so a stop() issued by
+   a job is called with _current == this and a stop() issued by a client program (or the destructor) is not. *)
+Definition is_cur (a : after) : bool := match a with AWorker _ _ => true | _ => false end.
 
 (* the join loop of stop() *)
 Definition after_wait (s : st) (t : nat) (l q : list nat) (first : bool) (a : after) : st * list ev :=
@@ -196,7 +198,7 @@ Definition stop_mark (s : st) (t : nat) (a : after) : st * list ev :=
   let l := filter (fun w => negb (Nat.eqb w t)) tmp in       (* own entry: detach, not join *)
   let a' := match a with AWorker _ r => AWorker (existsb (Nat.eqb t) tmp) r | _ => a end in
   let s1 := marked s (sleeper_ids s) in                          (* _exit = true; notify_all; swap; swap *)
-  if negb first && negb (is_cur s t) && negb (stopped s) then
+  if negb first && negb (is_cur a) && negb (stopped s) then
     (with_thr s1 t (SWait l q a'), [])                        (* somebody else is stopping: _cond.wait until _stopped *)
   else after_wait s1 t l q first a'.
 
